@@ -48,6 +48,17 @@ func NewInformerWorker(ctrlContext *Context) *InformerWorker {
 		DeleteFunc: w.handleJob,
 	})
 
+	// Add event handler for JobConfigs that are added.
+	// Handlers run while the caches are still being listed, and no order is guaranteed
+	// between the two informers: a Job event that arrives before its JobConfig is in
+	// the cache cannot be resolved to its JobConfig and is dropped above. Reconciling
+	// every JobConfig once it is added makes sure that its Jobs are not left waiting.
+	w.jobconfigInformer.Informer().AddEventHandler(cache.ResourceEventHandlerFuncs{
+		AddFunc: func(obj interface{}) {
+			w.enqueueObject(obj, w.jobConfigQueue)
+		},
+	})
+
 	return w
 }
 
